@@ -19,3 +19,17 @@ claim("C12", "model_checking",
       "Executor (and the real CLI on SQLite with --tx-mode none); ApplyMonitor.tla decides refusal without any statement and with untouched history, no crash, and tail resume with a completed revision.",
       "Trusted: scripted stores at API level, the independent SQLite reader at CLI level; the directory is re-hashed after each edit; SHA-256 injective.",
       "3 C12")
+claim("C13", "model_checking",
+      "TLA+ model of the migrate-apply transaction multiplexer (ApplyTx.tla) checked exhaustively by TLC; every configuration run on the real CLI/SQLite and the recorded run validated by TLC against ApplyTxMonitor.tla",
+      "TLC checks FailState / FileAtomic / RevNotAhead / NoSpuriousError / DryRunNoChange and the liveness property Recovery on ApplyTx.tla for all modes x per-file directives x shapes x failing "
+      "positions x count x dry-run. The same configurations are executed with the real binary on SQLite files; after every command an independent client reads the database and TLC evaluates the "
+      "formulas of C13 (state after failure per mode, success state, fix-and-rerun, dry-run byte identity) on the recorded run. `schema apply` atomicity is exercised by checks/c13schema.py.",
+      "Trusted: SQLite, python's sqlite3 reader, statements are journal INSERTs (the failing one targets a missing table). Bounds in the evidence file.",
+      "3 C13")
+claim("C10", "model_checking",
+      "ApplyTx.tla with a Crash action at every control point checked by TLC (safety + Recovery liveness); real CLI killed by SIGKILL at every hook point x occurrence, disk read independently, rerun, runs validated by TLC (ApplyTxMonitor.tla)",
+      "TLC explores every crash point of the model (1 crash quick, 2 thorough) and proves FileAtomic / RevNotAhead / AtMostOnceTx / RepeatBoundNone and Recovery under weak fairness. The harness kills the "
+      "real binary (build tag verif) at every instrumented point and occurrence for every mode x shape x directive placement, reads the SQLite file with an independent client, re-runs the command and lets TLC "
+      "evaluate the C10 formulas on each recorded experiment.",
+      "Trusted: SIGKILL models the crash (no torn pages / power loss); SQLite durability; the hook points of commit 377f5cc are the linearisation points; private TMPDIR so the stale advisory lock expires.",
+      "3 C10")
